@@ -10,7 +10,9 @@ use crate::value::ValueView;
 const SMALL_VEC_CAP: usize = 4;
 
 type PatternVec<'a> = SmallVec<[&'a Pattern; SMALL_VEC_CAP]>;
-type NodeIdVec = SmallVec<[NodeId; SMALL_VEC_CAP]>;
+/// Operands of a chain of operators, as `(operand, consumer)` pairs where
+/// `consumer` is the operator in the chain that takes `operand` as an input.
+type OperandVec<'a> = SmallVec<[(NodeId, &'a OperatorNode); SMALL_VEC_CAP]>;
 
 /// Tells [`SymbolMap::transaction`] what to do with the symbol bindings added
 /// during the transaction body.
@@ -112,14 +114,54 @@ impl ConstantPattern {
         }
     }
 
-    fn matches(&self, node: &Constant) -> bool {
-        match node.as_view() {
+    /// Test whether `node` is a scalar operand of `consumer` with a value that
+    /// matches this pattern.
+    fn matches(
+        &self,
+        node: &Constant,
+        node_id: NodeId,
+        consumer: Option<&OperatorNode>,
+        graph: &Graph,
+    ) -> bool {
+        let value_matches = match node.as_view() {
             ValueView::FloatTensor(t) => t
                 .item()
                 .is_some_and(|x| (x - self.value).abs() <= self.tolerance),
             _ => false,
-        }
+        };
+        let other_operands = consumer
+            .map(|op| op.input_ids())
+            .unwrap_or_default()
+            .iter()
+            .flatten()
+            .copied()
+            .filter(|input_id| *input_id != node_id);
+        value_matches && broadcasts_as_scalar(graph, node.ndim(), other_operands)
     }
+}
+
+/// Test whether a single-element constant with `ndim` dimensions has the same
+/// effect as a scalar when it is broadcast against the other operands of an
+/// operation.
+///
+/// This is always true for a constant with rank zero. A constant with shape
+/// `[1]`, `[1, 1]` etc. adds dimensions to the result of the operation unless
+/// another operand has at least as many dimensions, so it is only treated as a
+/// scalar if another operand is known to have a rank of at least `ndim`.
+pub fn broadcasts_as_scalar(
+    graph: &Graph,
+    ndim: usize,
+    mut other_operands: impl Iterator<Item = NodeId>,
+) -> bool {
+    ndim == 0
+        || other_operands.any(|operand_id| {
+            let operand_ndim = match graph.get_node(operand_id) {
+                Some(Node::Constant(const_node)) => Some(const_node.ndim()),
+                Some(Node::Value(value)) => value.ndim(),
+                _ => None,
+            };
+            operand_ndim.is_some_and(|operand_ndim| operand_ndim >= ndim)
+        })
 }
 
 #[derive(Clone, Debug, PartialEq)]
@@ -175,7 +217,9 @@ impl OpPattern {
             && let [Some(input_a), Some(input_b)] = node.input_ids()
         {
             let action = symbols.transaction(|s| {
-                if pat_a.test_impl(*input_a, graph, s) && pat_b.test_impl(*input_b, graph, s) {
+                if pat_a.test_impl(*input_a, Some(node), graph, s)
+                    && pat_b.test_impl(*input_b, Some(node), graph, s)
+                {
                     SymbolsAction::Keep
                 } else {
                     SymbolsAction::Discard
@@ -184,13 +228,15 @@ impl OpPattern {
             if action.is_keep() {
                 return true;
             }
-            pat_b.test_impl(*input_a, graph, symbols) && pat_a.test_impl(*input_b, graph, symbols)
+            pat_b.test_impl(*input_a, Some(node), graph, symbols)
+                && pat_a.test_impl(*input_b, Some(node), graph, symbols)
         } else {
             self.inputs
                 .iter()
                 .zip(node.input_ids())
                 .all(|(input_expr, input_id)| {
-                    input_id.map(|input_id| input_expr.test_impl(input_id, graph, symbols))
+                    input_id
+                        .map(|input_id| input_expr.test_impl(input_id, Some(node), graph, symbols))
                         == Some(true)
                 })
         }
@@ -232,36 +278,43 @@ fn flatten_associative_pattern_impl<'a>(
 /// Flatten the graph subtree rooted at `node`, descending recursively through
 /// any operator with the same name as `op_name` that has two inputs. Returns
 /// the list of sub-graph nodes that form the chain.
-fn flatten_graph_associative_chain(node: &OperatorNode, graph: &Graph, op_name: &str) -> NodeIdVec {
-    let mut nodes = NodeIdVec::new();
+fn flatten_graph_associative_chain<'a>(
+    node: &'a OperatorNode,
+    graph: &'a Graph,
+    op_name: &str,
+) -> OperandVec<'a> {
+    let mut nodes = OperandVec::new();
     for input in node.input_ids() {
         match input {
-            Some(input_id) => flatten_associative_graph_impl(*input_id, graph, op_name, &mut nodes),
+            Some(input_id) => {
+                flatten_associative_graph_impl(*input_id, node, graph, op_name, &mut nodes)
+            }
             None => {
                 // Bail out: a missing input means we can't represent the chain
                 // faithfully. Return an empty list so the multiset matcher
                 // falls back to the strict matcher.
-                return NodeIdVec::new();
+                return OperandVec::new();
             }
         }
     }
     nodes
 }
 
-fn flatten_associative_graph_impl(
+fn flatten_associative_graph_impl<'a>(
     node_id: NodeId,
-    graph: &Graph,
+    consumer: &'a OperatorNode,
+    graph: &'a Graph,
     op_name: &str,
-    nodes: &mut NodeIdVec,
+    nodes: &mut OperandVec<'a>,
 ) {
     if let Some((_, op_node)) = graph.get_source_node(node_id)
         && op_node.operator().name() == op_name
         && let [Some(lhs), Some(rhs)] = op_node.input_ids()
     {
-        flatten_associative_graph_impl(*lhs, graph, op_name, nodes);
-        flatten_associative_graph_impl(*rhs, graph, op_name, nodes);
+        flatten_associative_graph_impl(*lhs, op_node, graph, op_name, nodes);
+        flatten_associative_graph_impl(*rhs, op_node, graph, op_name, nodes);
     } else {
-        nodes.push(node_id);
+        nodes.push((node_id, consumer));
     }
 }
 
@@ -270,7 +323,7 @@ fn flatten_associative_graph_impl(
 /// symbol bindings are added to `symbols`.
 fn match_pattern_set(
     patterns: &[&Pattern],
-    nodes: &[NodeId],
+    nodes: &[(NodeId, &OperatorNode)],
     graph: &Graph,
     symbols: &mut SymbolMap,
 ) -> bool {
@@ -281,7 +334,7 @@ fn match_pattern_set(
 
 fn match_pattern_set_recursive(
     patterns: &[&Pattern],
-    nodes: &[NodeId],
+    nodes: &[(NodeId, &OperatorNode)],
     used: &mut [bool],
     graph: &Graph,
     symbols: &mut SymbolMap,
@@ -290,12 +343,12 @@ fn match_pattern_set_recursive(
         return true;
     };
 
-    for (i, &graph_input) in nodes.iter().enumerate() {
+    for (i, &(graph_input, consumer)) in nodes.iter().enumerate() {
         if used[i] {
             continue;
         }
         let action = symbols.transaction(|s| {
-            if !pat.test_impl(graph_input, graph, s) {
+            if !pat.test_impl(graph_input, Some(consumer), graph, s) {
                 return SymbolsAction::Discard;
             }
             used[i] = true;
@@ -448,7 +501,7 @@ impl Pattern {
     /// up the node IDs that any symbols in the pattern were resolved to.
     pub fn test(&self, node_id: NodeId, graph: &Graph) -> Option<Match> {
         let mut symbols = SymbolMap::new();
-        if self.test_impl(node_id, graph, &mut symbols) {
+        if self.test_impl(node_id, None, graph, &mut symbols) {
             Some(Match { symbols })
         } else {
             None
@@ -457,7 +510,16 @@ impl Pattern {
 
     /// Match this pattern against a subgraph with output `node_id` and record
     /// symbol-node associations in `symbols`.
-    fn test_impl(&self, node_id: NodeId, graph: &Graph, symbols: &mut SymbolMap) -> bool {
+    ///
+    /// `consumer` is the operator which uses `node_id` as an input in the
+    /// subgraph being matched, if any.
+    fn test_impl(
+        &self,
+        node_id: NodeId,
+        consumer: Option<&OperatorNode>,
+        graph: &Graph,
+        symbols: &mut SymbolMap,
+    ) -> bool {
         let Some(node) = graph.get_node(node_id) else {
             return false;
         };
@@ -487,7 +549,7 @@ impl Pattern {
                 }
             }
             (PatternKind::Constant(const_pat), Node::Constant(const_node)) => {
-                const_pat.matches(const_node)
+                const_pat.matches(const_node, node_id, consumer, graph)
             }
             (PatternKind::Symbol(sym_pat), Node::Constant(_) | Node::Value(_)) => {
                 if sym_pat.constant && !matches!(node, Node::Constant(_)) {
@@ -506,7 +568,7 @@ impl Pattern {
             (PatternKind::AnyOf(patterns), _) => patterns.iter().any(|pattern| {
                 symbols
                     .transaction(|s| {
-                        if pattern.test_impl(node_id, graph, s) {
+                        if pattern.test_impl(node_id, consumer, graph, s) {
                             SymbolsAction::Keep
                         } else {
                             SymbolsAction::Discard
